@@ -1,7 +1,7 @@
 (** * C10 — mock derivations are attached only when enabled, and are test-gated unless exporting *)
 From Coq Require Import List String Ascii Bool.
 From Entrait Require Import Tok Syn Opts Split Convert Codegen Expand Proj Examples.
-From Entrait.Proofs Require Import Base Shapes NonVac PC10.
+From Entrait.Proofs Require Import Base Shapes NonVac PC10 Cfg.
 Import ListNotations.
 Local Open Scope list_scope.
 
@@ -80,6 +80,31 @@ Theorem c10_trait : forall v attr h t items,
     (forall d, In d ds -> t_attrs d = filter is_async_trait (h_attrs h) \/ t_attrs d = []).
 Proof. exact c10_trait_attrs. Qed.
 Print Assumptions c10_trait.
+
+(** ** what that means in a build.  [in_effect test a]: the attribute in effect in a build with / without
+    [cfg(test)] ([cfg_attr(test, X)] is [X] in a test build and nothing otherwise).  Among the attributes the macro
+    added, a unimock / mockall derivation is in effect exactly when it is enabled for the invocation AND (the
+    invocation is exporting OR this is a test build): non-test builds contain no mock implementation unless the
+    invocation exports, exporting invocations contain it unconditionally — for both kinds of build, every option
+    record, with and without the [mock_api] requirement. Composes with [c10_fn] / [c10_mod] / [c10_trait]. *)
+Theorem c10_in_build : forall test o needs_api added,
+  mock_spec o needs_api added ->
+  existsb unimock_derivation (flat_map (in_effect test) added)
+    = (unimock_value o && (negb needs_api || is_some (o_mock_api o))) && (export_value o || test) /\
+  existsb mockall_derivation (flat_map (in_effect test) added)
+    = mockall_value o && (export_value o || test).
+Proof. exact mock_spec_in_build. Qed.
+Print Assumptions c10_in_build.
+
+Corollary c10_nontest_build_has_no_mock : forall o needs_api added,
+  mock_spec o needs_api added -> export_value o = false ->
+  existsb unimock_derivation (flat_map (in_effect false) added) = false /\
+  existsb mockall_derivation (flat_map (in_effect false) added) = false.
+Proof.
+  intros o n added H E. destruct (mock_spec_in_build false o n added H) as [-> ->]. rewrite E.
+  split; [apply andb_false_r | apply andb_false_r].
+Qed.
+Print Assumptions c10_nontest_build_has_no_mock.
 
 (** ** the predicate the checker evaluates on the implementation's output holds of every model expansion.
     The view takes (attributes of the trait) minus (the user's attributes that the macro re-applies to the
